@@ -42,18 +42,46 @@ def leaf_values(st):
         a = a.astype(dt)
     if st.get("order") == "F" and a.ndim >= 2:
         a = np.asfortranarray(a)
+    lay = st.get("layout")
+    if lay and a.ndim >= 1 and a.size > 0:
+        a = apply_layout(a, lay)
     if st["kind"] == "scalar":
         return float(a.reshape(()))
+    return a
+
+
+def apply_layout(a, lay):
+    """Same shape (and, except for 'bcast', same values) in a different memory layout."""
+    if lay == "neg":
+        return a[::-1].copy()[::-1]
+    if lay == "sliced":
+        big = np.zeros(a.shape[:-1] + (a.shape[-1] * 2,), dtype=a.dtype)
+        big[..., ::2] = a
+        return big[..., ::2]
+    if lay == "bcast":
+        return np.broadcast_to(a[:1], a.shape)  # 0-stride along axis 0 (read-only)
+    if lay == "relaxed":
+        ones = [i for i, n in enumerate(a.shape) if n == 1]
+        if not ones:
+            return a
+        k = ones[0]
+        core = np.ascontiguousarray(np.squeeze(a, axis=k))
+        return np.expand_dims(core, k) if False else core[(slice(None),) * k + (None,)]
+    if lay == "offset":
+        big = np.zeros((a.size + 3,), dtype=a.dtype)
+        big[3:] = a.ravel()
+        return big[3:].reshape(a.shape)
     return a
 
 
 def mg_leaf(mg, st):
     v = leaf_values(st)
     k = st["kind"]
+    nocopy = bool(st.get("layout")) and isinstance(v, np.ndarray)
     if k == "var":
-        return mg.tensor(v, constant=st.get("constant"))  # float -> non-constant by default
+        return mg.tensor(v, constant=st.get("constant"), copy=not nocopy)  # float -> non-constant by default
     if k == "const":
-        return mg.tensor(v, constant=True)
+        return mg.tensor(v, constant=True, copy=not nocopy)
     if k == "inttensor":
         return mg.tensor(v)
     return v  # array / intarray / scalar / intscalar : handed to MyGrad as-is
